@@ -1445,6 +1445,26 @@ def rule_template_argument_identity(ctx, rep: Report, rid="S8"):
                                            "unsubstituted in the emitted C++"), f"{ci.mod.rel}:{init.lineno}", nontrivial=needed)
 
 
+def _instantiate_type_evaluable(ctx) -> bool:
+    """instantiate_type could be run on all its sample type expressions (S14 then decides what its inner walk does)."""
+    def mk():
+        class _R:
+            prop = "-"
+
+            def __init__(self):
+                self.units = {}
+
+            def add(self, *a, **k):
+                pass
+        r = _R()
+        try:
+            rule_instantiate_type_by_evaluation(ctx, r, "S14")
+        except AnalysisError:
+            return False
+        return r.units.get("instantiate_type_runs", 0) >= 20
+    return ctx._get("instantiate_type_evaluable", mk)
+
+
 def rule_scoped_replacement_spelling(ctx, rep: Report, rid="S9"):
     """Scoped use `T::Value`: the result is a copy of the concrete type's Typename whose *name* becomes the component-wise
     rewritten path.  That Typename keeps the concrete type's namespaces (and template arguments), and to_cpp() prints them in
@@ -1473,6 +1493,8 @@ def rule_scoped_replacement_spelling(ctx, rep: Report, rid="S9"):
         rep.add(rid, "scoped use:the parameter's component is replaced by the concrete type's bare name", ok,
                 f"the component is replaced by `{unparse(body)}` while `{holder}` keeps its own namespaces: they are printed twice "
                 f"(gtsam::gtsam::Pose3::Value) for every concrete type that lives in a namespace", f"{mi.rel}:{st.lineno}")
+        if not keeps and _instantiate_type_evaluable(ctx):
+            keeps = True              # what comes out for scoped uses is read off the evaluated samples (S14: `const T::Value&`, three components ...)
         rep.add(rid, "scoped use:the copied Typename keeps the concrete type's namespaces and template arguments", keeps,
                 f"`{holder}`.namespaces / .instantiations are overwritten after the copy", f"{mi.rel}:{st.lineno}", nontrivial=not keeps)
 
@@ -1717,6 +1739,8 @@ def rule_simultaneous_substitution(ctx, rep: Report, rid="S12"):
                     continue
                 n += 1
                 bad = [(s_.lineno, r.lineno) for s_ in stores for r in rec if not _exclusive(s_, r) and s_.lineno < r.lineno]
+                if bad and enclosing(f, ast.FunctionDef) is not None and enclosing(f, ast.FunctionDef).name == "instantiate_type" and _instantiate_type_evaluable(ctx):
+                    bad = []          # the inner walk of instantiate_type: decided on samples whose concrete type is spelled like another parameter (S14)
                 rep.add(rid, f"simultaneous:{f.name}:a node is rewritten or descended into, not both", not bad,
                         f"`{v}.{stores[0].attr}` is stored at line {bad[0][0] if bad else 0} and `{f.name}({v})` descends into the same node at line "
                         f"{bad[0][1] if bad else 0} on the same path: the replacement text is scanned for template parameters again", f"{mi.rel}:{loop.lineno}")
@@ -2040,19 +2064,32 @@ def rule_instantiate_type_by_evaluation(ctx, rep: Report, rid="S14", part="subst
         ("std::pair<double, std::map<int, std::vector<T>>>", lambda: ty(tn("pair", ["std"], [tn("double"), tn("map", ["std"], [tn("int"), tn("vector", ["std"], [tn("T")])])])),
          "std::pair<double, std::map<int, std::vector<gtsam::Pose3>>>"),
         ("T::Value", lambda: ty(tn("Value", ["T"]), const="const", ref="&"), "const gtsam::Pose3::Value&"),
+        ("T::Traits::Scalar", lambda: ty(tn("Scalar", ["T", "Traits"])), "gtsam::Pose3::Traits::Scalar"),
+        ("const U::Params::Vector::Entry&", lambda: ty(tn("Entry", ["U", "Params", "Vector"]), const="const", ref="&"), "const double::Params::Vector::Entry&"),
         ("This", lambda: ty(tn("This"), sp="*"), None),
         ("ns::Other", lambda: ty(tn("Other", ["ns"]), ref="&"), "ns::Other&"),
         ("Tee", lambda: ty(tn("Tee")), "Tee"),
         ("std::vector<Tee>", lambda: ty(tn("vector", ["std"], [tn("Tee")])), "std::vector<Tee>"),
         ("UT::Value", lambda: ty(tn("Value", ["UT"])), "UT::Value"),
     ]
+    # a second binding: the concrete type of T is itself *called* U (ns::U) - a substitution that scans its own output again
+    # would turn it into ns::double
+    NU = ("ns::U", lambda: tn("U", ["ns"]))
+    cases2 = [
+        ("T (T := ns::U)", lambda: ty(tn("T")), "ns::U"),
+        ("std::map<T, U> (T := ns::U)", lambda: ty(tn("map", ["std"], [tn("T"), tn("U")])), "std::map<ns::U, double>"),
+        ("std::vector<std::pair<T, std::vector<T>>> (T := ns::U)", lambda: ty(tn("vector", ["std"], [tn("pair", ["std"], [tn("T"), tn("vector", ["std"], [tn("T")])])])),
+         "std::vector<std::pair<ns::U, std::vector<ns::U>>>"),
+        ("const T::Value& (T := ns::U)", lambda: ty(tn("Value", ["T"]), const="const", ref="&"), "const ns::U::Value&"),
+    ]
     diffs, impure, n = [], [], 0
     try:
-        for label, mk, want in cases:
+        for label, mk, want in cases + cases2:
             ct = mk()
             before = spell(ct)
-            cpp_tn = tn("Foo", ["ns"], [P3[1](), D[1]()])
-            env = {"ctype": ct, "template_typenames": ["T", "U"], "instantiations": [P3[1](), D[1]()], "cpp_typename": cpp_tn}
+            first = NU if (label, mk, want) in cases2 else P3
+            cpp_tn = tn("Foo", ["ns"], [first[1](), D[1]()])
+            env = {"ctype": ct, "template_typenames": ["T", "U"], "instantiations": [first[1](), D[1]()], "cpp_typename": cpp_tn}
             for p_, d_ in zip(ps[len(ps) - len(fn.args.defaults):], fn.args.defaults):
                 env.setdefault(p_, ast.literal_eval(d_))
             res = mini_exec(fn, env, budget=80000, functions=dict(mi.functions), classes=classes)
